@@ -3,3 +3,4 @@
 pub mod deadline;
 pub mod routes;
 pub mod wire;
+pub mod x509ref;
